@@ -11,6 +11,10 @@
    "end" lines close a run and state the two clauses of the property on what the real code delivered:
      - PartitionInvariance on recorded runs: every run over the same stream delivers the frames of the
        first run (coroutine runs: their CorView),
+     - transparency: a "stream" line with same = TRUE declares a stream the transmitter may send instead of the
+       previous one without any effect for the receiver (a transport packet sent twice - ISO 13818-1 2.4.3.3 -,
+       packets of other PIDs / null packets / adaptation-field-only packets inserted, other stuffing data
+       units): its runs have to deliver the frames of the first run of the base stream (TV-SAME),
      - Recovery: `sent` are the frames the intact packets behind the damage were made from, without the
        first and the last one; they have to be the last frames delivered.
    Both are reported (TV-PARTITION / TV-RECOVERY with the log line) without ending the validation.   *)
@@ -27,7 +31,7 @@ X == Log[sl].s
 Scal(t) == IF t.ts THEN ScalTs(t) ELSE ScalPes(t)
 NoRun == [set |-> FALSE, fr |-> <<>>]
 
-TStream == Ev.a = "stream" /\ sl' = l /\ first' = NoRun /\ UNCHANGED <<maxl, acc, s>>
+TStream == Ev.a = "stream" /\ sl' = l /\ first' = (IF Ev.same THEN first ELSE NoRun) /\ UNCHANGED <<maxl, acc, s>>
 TOpen == /\ Ev.a = "open" /\ Ev.ok
          /\ s' = S0(Ev.ts, Ev.cb, Ev.pid, pol) /\ maxl' = Ev.maxl /\ acc' = <<>> /\ UNCHANGED <<sl, first>>
 TZero == /\ Ev.a = "zero"
@@ -61,7 +65,8 @@ View(fr) == IF s.d.cb THEN fr ELSE CorView(fr, maxl)
 TEnd == /\ Ev.a = "end"
         /\ IF Ev.rec /\ ~IsSuffix(NormF(Ev.sent), NormF(acc))
            THEN PrintT(<<"TV-RECOVERY", l, Failure(NormF(Ev.sent), NormF(acc)), pol>>) ELSE TRUE
-        /\ IF first.set /\ Ev.cmp /\ acc # View(first.fr) THEN PrintT(<<"TV-PARTITION", l>>) ELSE TRUE
+        /\ IF first.set /\ Ev.cmp /\ acc # View(first.fr)
+           THEN PrintT(<<(IF Log[sl].same THEN "TV-SAME" ELSE "TV-PARTITION"), l>>) ELSE TRUE
         /\ first' = IF ~first.set /\ s.d.cb /\ Ev.cmp THEN [set |-> TRUE, fr |-> acc] ELSE first
         /\ UNCHANGED <<sl, maxl, acc, s>>
 
